@@ -86,6 +86,33 @@ type c18Case struct {
 
 // c18Siblings: two routes whose first segment is a bind parameter of a different name (placeholder or
 // regex), registered in either order: each route's handler must be able to read its own parameter.
+// c18MultiBind: a segment with several bind parameters (names not in alphabetical order) followed by further
+// bind-carrying segments: every accessor returns each parameter's own text.
+func c18MultiBind(first, second, third string) string {
+	f := flamego.NewWithLogger(io.Discard)
+	var got string
+	var yi, zi int
+	f.Get("/mb/{y: /[0-9]+/}-{x: /[a-z]+/}/{w}/{a: /[0-9]*/}{z}", func(c flamego.Context) {
+		got = fmt.Sprintf("y=%s x=%s w=%s a=%s z=%s", c.Param("y"), c.Param("x"), c.Param("w"), c.Param("a"), c.Param("z"))
+		yi, zi = c.ParamInt("y"), c.ParamInt("z")
+	})
+	var pan interface{}
+	func() {
+		defer func() { pan = recover() }()
+		f.ServeHTTP(&c01Spy{hdr: http.Header{}}, newReq("GET", "/mb/"+first+"-"+second+"/"+third+"/"+first+third))
+	}()
+	if pan != nil {
+		return fmt.Sprintf("panicked: %v", pan)
+	}
+	n, _ := strconv.Atoi(first)
+	nz, _ := strconv.Atoi(third)
+	want := fmt.Sprintf("y=%s x=%s w=%s a=%s z=%s", first, second, third, first, third)
+	if got != want || yi != n || zi != nz {
+		return fmt.Sprintf("handler read %q (ParamInt y=%d z=%d), expected %q (%d, %d)", got, yi, zi, want, n, nz)
+	}
+	return ""
+}
+
 // c18Rewrite: a handler reads the query, the request's query string is replaced (as a middleware that
 // strips or rewrites parameters does), and the handler reads again: the accessors answer for the request
 // as it is when they are called.
@@ -653,6 +680,21 @@ func c18Run(r *core.Run) {
 			}
 		}
 	}
+	for _, a := range []string{"0", "7", "12", "2024"} {
+		for _, b := range []string{"a", "ab", "q"} {
+			for _, c := range []string{"t", "9", "zz"} {
+				l.Evals++
+				l.Transitions++
+				l.Traces++
+				l.NonTrivial++
+				if bad := c18MultiBind(a, b, c); bad != "" {
+					l.Violate("param-of-a-multi-bind-segment", bad, c18Case{Mode: "multibind", RawHex: fmt.Sprintf("%x", a), Raw: b, Inner: c})
+				} else {
+					l.Class("param:multi-bind-segment")
+				}
+			}
+		}
+	}
 	for _, a := range nestVals {
 		for _, b := range nestVals {
 			for _, absent := range []bool{false, true} {
@@ -726,6 +768,8 @@ func c18Replay(raw json.RawMessage) (bool, string) {
 		bad, _, _ = c18CookieRead(w, s, c.Absent)
 	case "cookie-roundtrip":
 		bad = c18RoundTrip(s)
+	case "multibind":
+		bad = c18MultiBind(s, c.Raw, c.Inner)
 	case "rewrite":
 		bad = c18Rewrite(s, c.Inner, c.Absent)
 	case "siblings-placeholder":
